@@ -216,6 +216,10 @@ def PlusMinusRuns(text):
   return sorted(_PM_RUN.findall(text.replace(':-', ': ')))
 
 
+# a keyword delimited by `_` (or the end of the name) inside an identifier
+_KW_IN_ID = re.compile(r'(^|_)(distinct|limit|order_by|then|else|if|in|combine|'
+                       r'couldbe|cantbe|shouldbe)(_|$)', re.I)
+
 _OPERAND_END = ('name', 'num', 'str', 'Name', 'bt', 'op:)', 'op:]', 'op:}',
                 'kw:true', 'kw:false', 'kw:null')
 
@@ -321,6 +325,11 @@ def Signature(rec, vidx, who, clause, min_lay=None):
                                         else right)[3:]
     elif single_site and left == 'op:..' and sig['change'] == 'ok->rej':
       construct = 'restof-dots-space'
+    elif ((sig['change'] == 'rej->ok' and _HasKwId(toks)) or
+          (single_wrap and _HasKwId(toks[wrapped[0] - 1:wrapped[1]]))):
+      # an identifier that carries a keyword next to `_` stands where the
+      # keyword search of the parsers splits; the canonical text is rejected
+      construct = 'keyword-inside-identifier'
     elif (lay['sites'] and not lay['wraps'] and not lay['nests'] and
           not lay['semi'] and
           all(s_['k'] in ('sp', 'nl', 'hash') for s_ in lay['sites']) and
@@ -328,6 +337,11 @@ def Signature(rec, vidx, who, clause, min_lay=None):
       construct = 'concise-combine-eq-misfire'
   sig['construct'] = construct
   return sig
+
+
+def _HasKwId(toks):
+  return any(_KW_IN_ID.search(t) for t in toks
+             if '_' in t and t not in sg.KEYWORDS and t[0] not in '"\'`')
 
 
 def _EqTokenRightOf(toks, b):
